@@ -20,6 +20,7 @@ def sh(cmd, **kw):
 
 
 NDEBUG = []
+CFLAGS = []
 
 
 def build_demo(d, demo, out):
@@ -32,15 +33,16 @@ def build_demo(d, demo, out):
     if "__wrap_" in src:
         import re
         extra.append("-Wl," + ",".join("--wrap=" + w for w in sorted(set(re.findall(r"__wrap_(\w+)", src)))))
-    r = sh(cc + NDEBUG + ["-std=gnu11", "-DPOLYSEED_STATIC", "-I", os.path.join(d, "include"), "-iquote", os.path.join(d, "src"), demo] + srcs + ["-o", out] + extra)
+    r = sh(cc + NDEBUG + CFLAGS + ["-std=gnu11", "-DPOLYSEED_STATIC", "-I", os.path.join(d, "include"), "-iquote", os.path.join(d, "src"), demo] + srcs + ["-o", out] + extra)
     return r.returncode == 0, r.stdout[-400:]
 
 
 def main():
     ap = argparse.ArgumentParser()
     ap.add_argument("id"); ap.add_argument("prop"); ap.add_argument("patch"); ap.add_argument("demo")
-    ap.add_argument("--checks", default=""); ap.add_argument("--needs", default=""); ap.add_argument("--tier", default="quick")
+    ap.add_argument("--checks", default=""); ap.add_argument("--needs", default=""); ap.add_argument("--tier", default="quick"); ap.add_argument("--cflags", default="")
     a = ap.parse_args()
+    CFLAGS.extend(a.cflags.split())
     d = tempfile.mkdtemp(prefix="polyseed-seeded-")
     os.rmdir(d)
     log = []
@@ -68,7 +70,7 @@ def main():
         ok, msg = build_demo(d, a.demo, os.path.join(d, "demo_mut"))
         assert ok, "demo does not build on the changed tree: " + msg
         r1 = subprocess.run([os.path.join(d, "demo_mut")], stdout=subprocess.PIPE, stderr=subprocess.STDOUT, timeout=600, env=env)
-        log.append("demo with the change: exit %d" % r1.returncode)
+        log.append("demo with the change: exit %d%s" % (r1.returncode, " (demo and library built with %s)" % a.cflags if a.cflags else ""))
         confirmed = suite_ok and r0.returncode == 0 and r1.returncode != 0
     finally:
         sh(["git", "-C", "/repo", "worktree", "remove", "--force", d])
